@@ -1,6 +1,7 @@
 #!/bin/sh
 # runs every kept seeded change against the quick check of its own property and writes seeded/RESULTS.md
-cd /verif || exit 2
+# VERIF_ROOT / REPO_ROOT (default /verif, /repo) let the matrix run in an isolated copy: see tools/snapshot.sh
+cd "${VERIF_ROOT:-/verif}" || exit 2
 out=seeded/RESULTS.md
 echo "# Seeded changes against the quick check of their own property (tools/seed_matrix.sh)" > $out
 echo >> $out
